@@ -1,4 +1,5 @@
 import PfModel.Lemmas.LazyRun
+import PfModel.Lemmas.PipeCache
 /-! Helper lemmas for `Props/C18.lean`, part 3: `largs`/`lrun` preserve the invariant and return objects that stand for `compose`. -/
 namespace PF.Lazy
 open PF PF.Pipe
@@ -72,7 +73,7 @@ theorem tail_sound (hu : Unique fs) {f : Func} {o : String} {k : Nat} {vals : Li
     (hi : Inv fs kw s) (hr : den s.nodes r = some (result f vals)) (hl : alookup (updateAll f r s).memo o = some a) :
     Step s (updateAll f r s) ∧ Inv fs kw (updateAll f r s) ∧
     (alookup kw o = none → ∃ v k', den (updateAll f r s).nodes a = some v ∧ compose fs kw k' o = .ok v) := by
-  obtain ⟨hs, _, hcl, hcs, hg, newm, hmemo, hnew⟩ := updateAll_spec (fs := fs) (kw := kw) f r vals s hi hr
+  obtain ⟨hs, _, hcl, hcs, hg, _, newm, hmemo, hnew⟩ := updateAll_spec (fs := fs) (kw := kw) f r vals s hi hr
   have hall : ∀ q w', alookup (outVals f vals) q = some w' → compose fs kw (k+1) q = .ok w' := by
     intro q w' hq
     have hqmem : q ∈ f.outputs := outVals_mem f vals q w' hq
@@ -91,7 +92,61 @@ theorem tail_sound (hu : Unique fs) {f : Func} {o : String} {k : Nat} {vals : Li
       exact ⟨v, k', by rw [hext]; exact den_ext ext hd, hc⟩
   exact ⟨hs, ⟨hcl, hms, hcs, hg⟩, fun hko => hms o a hko hl⟩
 
-/-! ### the task graph's cache -/
+/-! ### structural equality of values and keys -/
+
+mutual
+theorem vbeq_eq : ∀ (a b : Val), vbeq a b = true → a = b
+  | .int a, .int b, h => by simp only [vbeq, beq_iff_eq] at h; rw [h]
+  | .str a, .str b, h => by simp only [vbeq, beq_iff_eq] at h; rw [h]
+  | .none, .none, _ => rfl
+  | .masked, .masked, _ => rfl
+  | .app f a, .app g b, h => by
+      simp only [vbeq, Bool.and_eq_true, beq_iff_eq] at h
+      rw [h.1, kbeq_eq a b h.2]
+  | .pick v o, .pick w p, h => by
+      simp only [vbeq, Bool.and_eq_true, beq_iff_eq] at h
+      rw [vbeq_eq v w h.1, h.2]
+  | .proj v i, .proj w j, h => by
+      simp only [vbeq, Bool.and_eq_true, beq_iff_eq] at h
+      rw [vbeq_eq v w h.1, h.2]
+  | .arr s a, .arr t b, h => by
+      simp only [vbeq, Bool.and_eq_true, beq_iff_eq] at h
+      rw [h.1, lbeq_eq a b h.2]
+  | .tup a, .tup b, h => by
+      simp only [vbeq] at h
+      rw [lbeq_eq a b h]
+  | .int _, .str _, h | .int _, .none, h | .int _, .masked, h | .int _, .app _ _, h | .int _, .pick _ _, h | .int _, .proj _ _, h | .int _, .arr _ _, h | .int _, .tup _, h => by simp [vbeq] at h
+  | .str _, .int _, h | .str _, .none, h | .str _, .masked, h | .str _, .app _ _, h | .str _, .pick _ _, h | .str _, .proj _ _, h | .str _, .arr _ _, h | .str _, .tup _, h => by simp [vbeq] at h
+  | .none, .int _, h | .none, .str _, h | .none, .masked, h | .none, .app _ _, h | .none, .pick _ _, h | .none, .proj _ _, h | .none, .arr _ _, h | .none, .tup _, h => by simp [vbeq] at h
+  | .masked, .int _, h | .masked, .str _, h | .masked, .none, h | .masked, .app _ _, h | .masked, .pick _ _, h | .masked, .proj _ _, h | .masked, .arr _ _, h | .masked, .tup _, h => by simp [vbeq] at h
+  | .app _ _, .int _, h | .app _ _, .str _, h | .app _ _, .none, h | .app _ _, .masked, h | .app _ _, .pick _ _, h | .app _ _, .proj _ _, h | .app _ _, .arr _ _, h | .app _ _, .tup _, h => by simp [vbeq] at h
+  | .pick _ _, .int _, h | .pick _ _, .str _, h | .pick _ _, .none, h | .pick _ _, .masked, h | .pick _ _, .app _ _, h | .pick _ _, .proj _ _, h | .pick _ _, .arr _ _, h | .pick _ _, .tup _, h => by simp [vbeq] at h
+  | .proj _ _, .int _, h | .proj _ _, .str _, h | .proj _ _, .none, h | .proj _ _, .masked, h | .proj _ _, .app _ _, h | .proj _ _, .pick _ _, h | .proj _ _, .arr _ _, h | .proj _ _, .tup _, h => by simp [vbeq] at h
+  | .arr _ _, .int _, h | .arr _ _, .str _, h | .arr _ _, .none, h | .arr _ _, .masked, h | .arr _ _, .app _ _, h | .arr _ _, .pick _ _, h | .arr _ _, .proj _ _, h | .arr _ _, .tup _, h => by simp [vbeq] at h
+  | .tup _, .int _, h | .tup _, .str _, h | .tup _, .none, h | .tup _, .masked, h | .tup _, .app _ _, h | .tup _, .pick _ _, h | .tup _, .proj _ _, h | .tup _, .arr _ _, h => by simp [vbeq] at h
+theorem lbeq_eq : ∀ (a b : List Val), lbeq a b = true → a = b
+  | [], [], _ => rfl
+  | a :: as, b :: bs, h => by
+      simp only [lbeq, Bool.and_eq_true] at h
+      rw [vbeq_eq a b h.1, lbeq_eq as bs h.2]
+  | [], _ :: _, h => by simp [lbeq] at h
+  | _ :: _, [], h => by simp [lbeq] at h
+theorem kbeq_eq : ∀ (a b : List (String × Val)), kbeq a b = true → a = b
+  | [], [], _ => rfl
+  | (k, a) :: as, (l, b) :: bs, h => by
+      simp only [kbeq, Bool.and_eq_true, beq_iff_eq] at h
+      rw [h.1.1, vbeq_eq a b h.1.2, kbeq_eq as bs h.2]
+  | [], _ :: _, h => by simp [kbeq] at h
+  | _ :: _, [], h => by simp [kbeq] at h
+end
+
+theorem keq_eq {k k' : Key} (h : keq k k' = true) : k = k' := by
+  obtain ⟨a, b⟩ := k
+  obtain ⟨a', b'⟩ := k'
+  simp only [keq, Bool.and_eq_true, beq_iff_eq] at h
+  rw [h.1, kbeq_eq b b' h.2]
+
+/-! ### the caches -/
 
 theorem cacheGet_mem : ∀ (c : List (Key × LArg)) (k' : Key) (a : LArg), cacheGet c k' = some a →
     ∃ key, (key, a) ∈ c ∧ keq key k' = true := by
@@ -107,57 +162,106 @@ theorem cacheGet_mem : ∀ (c : List (Key × LArg)) (k' : Key) (a : LArg), cache
     · obtain ⟨key, hm, hq⟩ := ih k' a h
       exact ⟨key, List.mem_cons_of_mem _ hm, hq⟩
 
-theorem keq_fst {k k' : Key} (h : keq k k' = true) : k.1 = k'.1 := by
-  simp only [keq, Bool.and_eq_true] at h
-  exact eq_of_beq h.1
-
-theorem activeKey_fst {f : Func} {o : String} {s : LSt} {k : Key} (h : activeKey fs kw f o s = some k) : k.1 = f.outputs := by
+theorem activeKey_some {f : Func} {o : String} {s : LSt} {k : Key} (h : activeKey fs kw f o s = some k) :
+    cacheKey fs kw f o = some k := by
   unfold activeKey at h
   split at h
+  · exact h
   · cases h
-  · unfold cacheKey at h
-    split at h
-    · cases h
-    · split at h
-      · cases h
-      · injection h with h; rw [← h]
+
+theorem cacheKey_some {f : Func} {o : String} {K : Key} (h : cacheKey fs kw f o = some K) :
+    PipeCache.computeKey (fun v => v) fs kw f o = some ⟨K.1, K.2⟩ := by
+  unfold cacheKey at h
+  split at h
+  · cases h
+  · next PK hPK => injection h with h; subst h; exact hPK
 
 theorem cacheLookup_sound {s : LSt} {key : Option Key} {r : LArg} (h : cacheLookup s key = some r) :
-    ∃ g k k', key = some k' ∧ s.tg = some g ∧ (k, r) ∈ g.cache ∧ k.1 = k'.1 := by
+    ∃ k k', key = some k' ∧ (k, r) ∈ entries s ∧ keq k k' = true := by
   unfold cacheLookup at h
   split at h
   · cases h
   · next k' =>
     split at h
     · cases h
-    · next g hg =>
-      obtain ⟨k, hm, hq⟩ := cacheGet_mem g.cache k' r h
-      exact ⟨g, k, k', rfl, hg, hm, keq_fst hq⟩
+    · next c hc =>
+      obtain ⟨k, hm, hq⟩ := cacheGet_mem c k' r h
+      refine ⟨k, k', rfl, ?_, hq⟩
+      unfold curCache at hc
+      unfold entries
+      split at hc
+      · next g hg => injection hc with hc; subst hc; rw [hg]; exact List.mem_append_left _ hm
+      · next hg => rw [hc, hg]; exact List.mem_append_right _ hm
 
-theorem cachePut_inv (hu : Unique fs) {f : Func} {o : String} {k : Nat} {vals : List (String × Val)} (key : Option Key) (a : LArg)
-    (s : LSt) (hi : Inv fs kw s) (hf : producer fs o = some f) (hkey : ∀ k', key = some k' → k'.1 = f.outputs)
+/-- **equal keys, equal results**: the entry written for one set of keyword arguments is right for every set of keyword
+    arguments that computes the same key (C09's `key_agree`: the key fixes the effective value of every root argument
+    the function depends on and excludes supplied intermediates) -/
+theorem entryOK_put {rank : String → Nat} (wf : PipeCache.WF fs rank) {f : Func} {o : String} {k : Nat}
+    {vals : List (String × Val)} {K : Key} {nodes : List Lazy.Node} {a : LArg}
+    (hf : producer fs o = some f) (hK : cacheKey fs kw f o = some K)
+    (hk : composeArgsWith (compose fs kw k) fs kw f f.params = .ok vals) (hd : den nodes a = some (result f vals)) :
+    EntryOK fs nodes K a := by
+  intro f' o' kw' K' hf' hK' hq
+  have hKK := keq_eq hq
+  subst hKK
+  have c1 := cacheKey_some hK
+  have c2 := cacheKey_some hK'
+  obtain ⟨hfm, ho⟩ := PipeCache.producer_mem fs o f hf
+  obtain ⟨hfm', ho'⟩ := PipeCache.producer_mem fs o' f' hf'
+  have e1 := (PipeCache.computeKey_some _ fs kw f o _ c1).2.2
+  have e2 := (PipeCache.computeKey_some _ fs kw' f' o' _ c2).2.2
+  have hff : f = f' := wf.uniq f hfm f' hfm' o ho (by
+    have : f.outputs = f'.outputs := by rw [← e1, ← e2]
+    rw [← this]; exact ho)
+  subst hff
+  have c1' : PipeCache.computeKey (fun v => v) fs kw f o' = some ⟨K.1, K.2⟩ := by
+    rw [PipeCache.computeKey_congr_out _ fs kw f o' o (by rw [hf, hf'])]; exact c1
+  have hag := PipeCache.key_agree (fun v => v) (fun _ _ h => h) fs wf.cons f hfm kw kw' o' _ c1' c2
+  have hargs : composeArgsWith (compose fs kw k) fs kw f f.params = composeArgsWith (compose fs kw' k) fs kw' f f.params := by
+    apply PipeCache.composeArgs_agree
+    intro pq hpq hb
+    have hin : ∀ x, (x = pq.1 ∨ x ∈ PipeCache.reach fs k pq.1) → x ∈ PipeCache.reachAll fs o' := fun x hx =>
+      PipeCache.reach_sub_all fs rank wf (k+1) o' x ((PipeCache.mem_reach_succ fs k o' x).mpr ⟨f, hf', pq, hpq, hb, hx⟩)
+    refine ⟨hag _ (hin _ (Or.inl rfl)), ?_⟩
+    apply PipeCache.compose_agree
+    intro x hx
+    exact hag _ (hin _ (Or.inr hx))
+  exact ⟨k, vals, by rw [← hargs]; exact hk, hd⟩
+
+theorem cachePut_inv {rank : String → Nat} (wf : PipeCache.WF fs rank) {f : Func} {o : String} {k : Nat}
+    {vals : List (String × Val)} (key : Option Key) (a : LArg)
+    (s : LSt) (hi : Inv fs kw s) (hf : producer fs o = some f) (hkey : ∀ k', key = some k' → cacheKey fs kw f o = some k')
     (hk : composeArgsWith (compose fs kw k) fs kw f f.params = .ok vals) (hd : den s.nodes a = some (result f vals)) :
     Inv fs kw (cachePut key a s) ∧ Step s (cachePut key a s) ∧ (cachePut key a s).nodes = s.nodes ∧
     (cachePut key a s).memo = s.memo := by
   unfold cachePut
   split
-  · next k' g hg =>
-    refine ⟨⟨hi.closed, hi.memo, ?_, ?_⟩, ⟨⟨[], by simp⟩, rfl, by simp [hg]⟩, rfl, rfl⟩
-    · intro g' hg' key' a' hmem f' o' hf' hkey'
-      simp only [Option.some.injEq] at hg'; subst hg'
-      simp only [List.mem_cons, Prod.mk.injEq] at hmem
-      rcases hmem with ⟨rfl, rfl⟩ | hmem
-      · have hout : f'.outputs = f.outputs := by rw [← hkey', hkey _ rfl]
-        have ho' : o' ∈ f'.outputs := by
-          have := List.find?_some hf'; simpa using this
-        have : producer fs o' = some f := hu f o hf o' (by rw [← hout]; exact ho')
-        rw [hf'] at this; injection this with this; subst this
-        exact ⟨k, vals, hk, hd⟩
-      · exact hi.cache g hg key' a' hmem f' o' hf' hkey'
-    · intro g' hg'
-      simp only [Option.some.injEq] at hg'; subst hg'
-      exact hi.graph g hg
   · exact ⟨hi, Step.refl s, rfl, rfl⟩
+  · next k' =>
+    have hok : EntryOK fs s.nodes k' a := entryOK_put wf hf (hkey k' rfl) hk hd
+    split
+    · next g hg =>
+      refine ⟨⟨hi.closed, hi.memo, ?_, ?_⟩, ⟨⟨[], by simp⟩, rfl, by simp [hg]⟩, rfl, rfl⟩
+      · intro key' a' hmem
+        simp only [entries, List.cons_append, List.mem_cons] at hmem
+        rcases hmem with e | hmem
+        · injection e with e1 e2; subst e1; subst e2; exact hok
+        · exact hi.cache key' a' (by simp only [entries, hg]; exact hmem)
+      · intro g' hg'
+        simp only [Option.some.injEq] at hg'; subst hg'
+        exact hi.graph g hg
+    · next hg =>
+      split
+      · next c hc =>
+        refine ⟨⟨hi.closed, hi.memo, ?_, ?_⟩, ⟨⟨[], by simp⟩, rfl, rfl⟩, rfl, rfl⟩
+        · intro key' a' hmem
+          simp only [entries, hg, List.nil_append, List.mem_cons] at hmem
+          rcases hmem with e | hmem
+          · injection e with e1 e2; subst e1; subst e2; exact hok
+          · exact hi.cache key' a' (by simp only [entries, hg, hc, List.nil_append]; exact hmem)
+        · intro g' hg'
+          exact hi.graph g' hg'
+      · exact ⟨hi, Step.refl s, rfl, rfl⟩
 
 theorem lrun_succ (n : Nat) (o : String) (s : LSt) : lrun fs kw (n+1) o s =
     match alookup s.memo o with
@@ -192,7 +296,8 @@ theorem call_node_sound {f : Func} {args : List (String × LArg)} {vals : List (
     rwa [denAll_length] at this
   · rw [mkNode_nodes, den_new]; simp [nodeVal, hd]
 
-theorem lrun_sound (hu : Unique fs) : ∀ (n : Nat), LRecSound fs kw (lrun fs kw n) := by
+theorem lrun_sound {rank : String → Nat} (wf : PipeCache.WF fs rank) : ∀ (n : Nat), LRecSound fs kw (lrun fs kw n) := by
+  have hu : Unique fs := PipeCache.unique_of_wf fs rank wf
   intro n
   induction n with
   | zero => intro o s a s' _ h; simp [lrun] at h
@@ -209,9 +314,8 @@ theorem lrun_sound (hu : Unique fs) : ∀ (n : Nat), LRecSound fs kw (lrun fs kw
         split at h
         · next r hr =>
           -- cache hit
-          obtain ⟨g, key, k', hkey, hg, hmem, hfst⟩ := cacheLookup_sound hr
-          have hk'out : k'.1 = f.outputs := activeKey_fst hkey
-          obtain ⟨k, vals, hk, hd⟩ := hi.cache g hg key r hmem f o hf (hfst.trans hk'out)
+          obtain ⟨key, k', hkey, hmem, hq⟩ := cacheLookup_sound hr
+          obtain ⟨k, vals, hk, hd⟩ := hi.cache key r hmem f o kw k' hf (activeKey_some hkey) hq
           have hi' : Inv fs kw { s with usedNone := true } := ⟨hi.closed, hi.memo, hi.cache, hi.graph⟩
           split at h
           · next a' hl =>
@@ -223,8 +327,8 @@ theorem lrun_sound (hu : Unique fs) : ∀ (n : Nat), LRecSound fs kw (lrun fs kw
           · next args s1 hargs =>
             obtain ⟨hs1, hi1, k, vals, hk, hdargs⟩ := largs_sound _ ihn f f.params s args s1 hi hargs
             obtain ⟨hi2, hd2⟩ := call_node_sound (f := f) s1 hi1 hdargs
-            obtain ⟨hi3, hs3, hn3, _⟩ := cachePut_inv hu (activeKey fs kw f o s) (.ref s1.nodes.length) _ hi2 hf
-              (fun k' hk' => activeKey_fst hk') hk hd2
+            obtain ⟨hi3, hs3, hn3, _⟩ := cachePut_inv wf (activeKey fs kw f o s) (.ref s1.nodes.length) _ hi2 hf
+              (fun k' hk' => activeKey_some hk') hk hd2
             split at h
             · next a' hl =>
               simp at h; obtain ⟨rfl, rfl⟩ := h
